@@ -17,6 +17,10 @@ REQUIRED_REACH = {'*': ['evictions', 'tracker_rejected', 'stored_identities_chec
 def _tweak(pf, rng):
     pf.p_identity = 0.75
     pf.weights = {'group': 7, 'del_group': 2, 'add_app': 14, 'regroup': 4, 'del_server': 4, 'del_app': 6}
+    if rng.random() < 0.35:
+        # leases that run into the reboot date: renewals that fail ahead of group members in the same queue
+        pf.p_lease = 0.7
+        pf.weights.update({'renew': 8, 'valid_until': 5, 'clock': 7})
 
 
 run = make_run(['C05'], _tweak)
